@@ -450,7 +450,24 @@ where
         });
     }
     let fuel = toks.len() + nbytes + 8;
-    let mock = Mock { rd, ..Mock::default() };
+    let mut mock = Mock { rd, ..Mock::default() };
+    if let Some(seed) = duplex {
+        // the write direction of the transport misbehaves on its own schedule (partial writes, Pending, zero-length writes, errors;
+        // failing flushes): whatever happens to what is WRITTEN, what is read and decoded stays the same
+        let mut h = (seed as u64 + 1).wrapping_mul(0x9E3779B97F4A7C15);
+        for _ in 0..16 {
+            h = h.wrapping_mul(6364136223846793005).wrapping_add(1442695040888963407);
+            mock.ws.push_back(match (h >> 33) % 6 {
+                0 => WAns::Err,
+                1 => WAns::Zero,
+                2 => WAns::Pending,
+                k => WAns::Accept(k as usize),
+            });
+            if (h >> 40) % 4 == 0 {
+                mock.fs.push_back(if (h >> 45) % 2 == 0 { FAns::Err } else { FAns::Pending });
+            }
+        }
+    }
     let mut framed = match pre {
         None => Framed::new(mock, Counting { inner: codec, calls: 0 }),
         Some(p) => Framed::from_parts(actix_codec::FramedParts::with_read_buf(
